@@ -232,7 +232,11 @@ def judgeTamper (inp : Json) : List String :=
   -- presignatures: the honest signers that finished hold ONE presignature (same id, same R)
   let pres := (jarr inp "presigs").map fun p => (jstr p "psid", jstr p "R")
   let whyPres := if !allEq pres then ["honest signers finished with different presignatures (id / R differ)"] else []
-  whyResult ++ whyBlame ++ whyClean ++ whyIdent ++ whyImp ++ whyEquiv ++ whyNamed ++ whyPres
+  -- a value a party is bound to (by an earlier commitment, by a fixed length) was replaced: the honest party does not finish
+  let whyBound :=
+    if jbool inp "expect_no_result" && !(jarr inp "parties").isEmpty then
+      ["an honest party finished although the other party opened a value it was not bound to"] else []
+  whyResult ++ whyBlame ++ whyClean ++ whyIdent ++ whyImp ++ whyEquiv ++ whyNamed ++ whyPres ++ whyBound
 
 def verdict (why : List String) : Json :=
   if why.isEmpty then jobj [("ok", true)] else jobj [("ok", false), ("why", Json.arr (why.map Json.str).toArray)]
